@@ -12,6 +12,12 @@ Definition run_entry_hash (a p : bytes) (v : hbv) : Z := hash_bytes (a ++ be 2 (
 Definition run_table_hash (t : table) : Z :=
   fold_left (fun acc ar => fold_left (fun acc2 pv => (acc2 + run_entry_hash (fst ar) (fst pv) (snd pv)) mod hmod) (snd ar) acc) t 0.
 
+(* entries whose Timestamp lies below thr may be removed by the real-clock Cleanup ticker at any moment: both sides compare
+   only the others (test heartbeats carry Timestamps ten days ahead); rows left empty are not counted *)
+Definition proj_table (thr : Z) (t : table) : table :=
+  filter (fun ar => match snd ar with [] => false | _ => true end)
+         (map (fun ar => (fst ar, filter (fun pv => thr <=? hv_ts (snd pv)) (snd ar))) t).
+
 Definition out_code (o : chan_out bytes bytes) : Z * bytes :=
   match o with OutObs x => (0, x) | OutVaa x => (1, x) | OutReq r => (2, r) end.
 
@@ -24,7 +30,7 @@ Fixpoint outs_eqb (a : list (chan_out bytes bytes)) (b : list (Z * bytes)) : boo
 
 Record p2run := { pr_keccak : list (bytes * bytes); pr_rec : list (bytes * bytes * option bytes);
                   pr_dechb : list (bytes * option Z); pr_decreq : list (bytes * bool);
-                  pr_disable : bool; pr_self : bytes;
+                  pr_disable : bool; pr_self : bytes; pr_thr : Z;
                   pr_evs : list (levent bytes bytes);
                   pr_expect : list (list Uint63.int * list (Z * bytes)) }.   (* per event: [table checksum; entries; guardians], outputs *)
 
@@ -34,13 +40,14 @@ Variable kc : bytes -> bytes.
 Variable dh : bytes -> option Z.
 Variable dr : bytes -> bool.
 
-Fixpoint cmp_run (disable : bool) (self : bytes) (st : nstate) (evs : list (levent bytes bytes)) (ex : list (list Uint63.int * list (Z * bytes))) (i : Z) : Z :=
+Fixpoint cmp_run (thr : Z) (disable : bool) (self : bytes) (st : nstate) (evs : list (levent bytes bytes)) (ex : list (list Uint63.int * list (Z * bytes))) (i : Z) : Z :=
   match evs, ex with
   | e :: evs', ([th; ne; na], outs) :: ex' =>
     let '(st', o) := loop_step rc kc dh dr disable self st e in
-    if outs_eqb o outs && (run_table_hash (n_tbl st') =? Uint63.to_Z th) && (table_entries (n_tbl st') =? Uint63.to_Z ne)
-       && (Z.of_nat (length (n_tbl st')) =? Uint63.to_Z na)
-    then cmp_run disable self st' evs' ex' (i + 1) else i
+    let pt := proj_table thr (n_tbl st') in
+    if outs_eqb o outs && (run_table_hash pt =? Uint63.to_Z th) && (table_entries pt =? Uint63.to_Z ne)
+       && (Z.of_nat (length pt) =? Uint63.to_Z na)
+    then cmp_run thr disable self st' evs' ex' (i + 1) else i
   | [], [] => -1
   | _, _ => i
   end.
@@ -49,4 +56,4 @@ End W.
 (* -1 = every event agrees; otherwise index of the first differing event *)
 Definition check_p2run (h : p2run) : Z :=
   cmp_run (p2_tbl_rec (pr_rec h)) (p2_tbl1 (pr_keccak h)) (p2_tbl_dec (pr_dechb h)) (p2_tbl_bool (pr_decreq h))
-          (pr_disable h) (pr_self h) ninit (pr_evs h) (pr_expect h) 0.
+          (pr_thr h) (pr_disable h) (pr_self h) ninit (pr_evs h) (pr_expect h) 0.
